@@ -1,6 +1,7 @@
 import ERP.Model.Region
 import ERP.Lemmas.Spec
 import ERP.Lemmas.GenGeometry
+import ERP.Lemmas.GenTies
 /-! # C17 — Region geometry is sound
 
 Stated for the model's `Region` over any linearly ordered field with a lawful `hypot`
